@@ -266,6 +266,8 @@ pub fn exec(line: &str, _model: &mut Model) -> Option<Exec> {
                 if k.is_empty() != sv { e.oracle_fail = Some(format!("validate() says {}, the RFC rules of the property say {}", if k.is_empty() { "valid".to_string() } else { format!("invalid {:?}", k) }, if sv { "valid" } else { "invalid" })); }
                 e.tags.push(format!("valid:{}", sv));
             } else { e.tags.push("valid:not-judged".into()); }
+            // a verdict is required for EVERY bundle: accepted, or rejected with a non-empty error list — a panic is neither
+            if kinds.is_none() { e.oracle_fail = Some("validate() panics instead of returning a verdict (the rules say: ".to_string() + match spec_valid(&b) { Some(true) => "valid)", Some(false) => "invalid)", None => "not judged)" }); }
             if e.oracle_fail.is_none() { set_clock_dtn(1_000); e.oracle_fail = history_vs_fresh(&b, line.len() as u64 * 31 + line.bytes().map(|x| x as u64).sum::<u64>()); }
             Some(e)
         }
